@@ -27,6 +27,7 @@ type knobs struct {
 	oddModes     bool
 	bigFile      bool
 	extBack      bool // links inside ext dirs pointing back into the tree
+	concShared   bool // several callers share one Packer and pack at the same time (needs files big enough to yield inside)
 }
 
 // Gen builds the scenario for (seed, profile). Pure.
@@ -43,6 +44,7 @@ func Gen(seed uint64, profile string) *Scenario {
 	switch profile {
 	case "roundtrip":
 		k.inLinks, k.fifos, k.rules, k.specials, k.oddModes, k.bigFile = r.Chance(2, 3), r.Chance(1, 5), r.Chance(1, 3), r.Chance(1, 2), r.Chance(1, 2), r.Chance(1, 10)
+		k.concShared = r.Chance(1, 4)
 	case "ignore":
 		k.rules, k.specials, k.inLinks = true, r.Chance(2, 3), r.Chance(1, 3)
 		k.metaRules = r.Chance(1, 4)
@@ -65,6 +67,11 @@ func Gen(seed uint64, profile string) *Scenario {
 		k.oddModes = false
 	}
 	genTree(simkit.NewRNG(seed, "pw/tree"), sc, &k)
+	if k.concShared {
+		for i, n := range []string{"big-1.bin", "big-2.bin"} {
+			sc.Tree = append(sc.Tree, TNode{Root: "src", Path: n, Kind: "file", Mode: 0o644, Tok: "IN-big" + strconv.Itoa(i) + ";", Size: 40000 + 9000*i, Sec: 1300000000 + int64(i)})
+		}
+	}
 	if k.rules {
 		s := genRules(simkit.NewRNG(seed, "pw/rules"), sc, &k)
 		sc.Rules = &s
@@ -399,7 +406,7 @@ func genRuns(r *simkit.RNG, sc *Scenario, k *knobs, profile string) {
 		p.PipeCap = simkit.Pick(r, []int{1, 7, 64, 512, 4096, 65536})
 		p.Chunks = simkit.Pick(r, wchunks)
 		sc.Runs = []PackRun{p}
-		if r.Chance(1, 4) {
+		if k.concShared {
 			// two callers sharing one Packer, both results unpacked afterwards
 			p.RoundTrip = "seq"
 			sc.Runs = []PackRun{p, p}
